@@ -665,6 +665,11 @@ class Effects:
                     return [cand], False, set()
                 cur = self.p.functions[cur].parent
             if f.id in self._ln(fi) or f.id in roots:
+                from .mutation import single_assignment
+
+                d = single_assignment(fi.node, f.id) if not isinstance(fi.node, ast.Lambda) else None
+                if isinstance(d, ast.Subscript):
+                    return self.resolve_call(ast.Call(func=d, args=call.args, keywords=call.keywords))
                 return [], True, set()  # calling a local callable (lambda / parameter)
             r = self.p.resolve_name(fi.module, f.id)
             if r is None:
@@ -690,8 +695,7 @@ class Effects:
         if isinstance(f, ast.Call):
             # serializers.get(format)(doc): constructor of a registered serializer
             if isinstance(f.func, ast.Attribute) and f.func.attr == "get" and "serializers" in norm(f.func.value):
-                self.ctx.fenv("prov.serializers.Registry.load_serializers")
-                reg = self.ctx.f.class_attr("prov.serializers.Registry", "serializers")
+                reg = self.ctx.registry_table()
                 if isinstance(reg, dict):
                     quals = sorted({v.qual for v in reg.values() if isinstance(v, ClassRef)})
                     inits = [self.p.lookup_method(c, "__init__") for c in quals]
